@@ -172,4 +172,61 @@ example :
     m.state = .default ∧ m.pools = [2, 3] ∧ m.reserve = [(0, 0), (1, 1)] ∧ m.acks = [(0, 3), (1, 3)] ∧
     (m.obj 2).epoch = 3 ∧ (m.obj 3).epoch = 3 := by decide
 
+/-! ### configurations: a prefix accepted once is accepted for every epoch -/
+
+theorem toDigits_length_le (k : Nat) : ∀ n, n < 10 ^ (k + 1) → (Nat.toDigits 10 n).length ≤ k + 1 := by
+  induction k with
+  | zero =>
+    intro n hn
+    have : n < 10 := by simpa using hn
+    rw [Nat.toDigits_of_lt_base this]; simp
+  | succ k ih =>
+    intro n hn
+    by_cases h10 : n < 10
+    · rw [Nat.toDigits_of_lt_base h10]; simp
+    · have hq : n / 10 < 10 ^ (k + 1) := by
+        rw [Nat.div_lt_iff_lt_mul (by decide)]
+        rw [Nat.pow_succ] at hn; exact hn
+      have := ih (n / 10) hq
+      rw [Nat.toDigits_of_base_le (by decide) (by omega)]  -- toDigits b n = toDigits b (n / b) ++ [digit]
+      simp only [List.length_append, List.length_cons, List.length_nil]
+      omega
+
+/-- The name budget: if the prefix passes newClientSession's check once, then for EVERY epoch and random id (64-bit) and
+    every session id (below 10^20, as any Go int is) the derived queue path - the longest name - fits the file-name limit;
+    so a hand-over cannot fail on names for a configuration that was accepted when the manager was created. -/
+theorem c16_names_fit (prefixLen epoch rand id : Nat) (ha : Restart.prefixAccepted prefixLen = true)
+    (he : epoch < 2 ^ 64) (hr : rand < 2 ^ 64) (hi : id < 10 ^ 20) :
+    Restart.queuePathLen prefixLen epoch rand id ≤ Restart.fileNameMaxLen := by
+  have d20 : ∀ n, n < 10 ^ 20 → Restart.digits n ≤ 20 := fun n hn => toDigits_length_le 19 n hn
+  have h64 : (2 : Nat) ^ 64 < 10 ^ 20 := by decide
+  have d1 := d20 epoch (by omega)
+  have d2 := d20 rand (by omega)
+  have d3 := d20 id hi
+  have ha' : prefixLen + 48 + 27 ≤ 255 := by
+    unfold Restart.prefixAccepted at ha
+    exact of_decide_eq_true ha
+  unfold Restart.queuePathLen Restart.fileNameMaxLen
+  split <;> omega
+
+/-- the same for a memfd mapping (repaired code): the name handed to memfd_create, "shmipc" included, fits its 249 bytes -/
+theorem c16_names_fit_memfd (prefixLen epoch rand id : Nat) (ha : Restart.prefixAcceptedMemfd prefixLen = true)
+    (he : epoch < 2 ^ 64) (hr : rand < 2 ^ 64) (hi : id < 10 ^ 20) :
+    Restart.memfdCreateNameLen + Restart.queuePathLen prefixLen epoch rand id ≤ Restart.memfdNameMaxLen := by
+  have d20 : ∀ n, n < 10 ^ 20 → Restart.digits n ≤ 20 := fun n hn => toDigits_length_le 19 n hn
+  have h64 : (2 : Nat) ^ 64 < 10 ^ 20 := by decide
+  have d1 := d20 epoch (by omega)
+  have d2 := d20 rand (by omega)
+  have d3 := d20 id hi
+  have ha' : 6 + prefixLen + 48 + 27 ≤ 249 := by
+    unfold Restart.prefixAcceptedMemfd at ha
+    exact of_decide_eq_true ha
+  unfold Restart.queuePathLen Restart.memfdNameMaxLen Restart.memfdCreateNameLen
+  split <;> omega
+
+/-- and the reserve is not wasteful by more than the digits not used: a prefix that is rejected would indeed overflow for
+    some epoch (the largest ids) -/
+example : Restart.prefixAccepted 180 = true ∧ Restart.prefixAccepted 181 = false ∧
+    Restart.queuePathLen 181 (2 ^ 64 - 1) (2 ^ 64 - 1) (10 ^ 19) = 256 := by decide
+
 end Props.C16
